@@ -133,6 +133,9 @@ def replay_one(case, seed):
         if len(got) != len(want):
             mm("res", ["C06"], {"exp": want, "got": got})
     cats = sorted(obs.get("categories", []))
+    if "ref" in case["kinds"]:
+        # (a reference is a hand-written managed expression: update may offer to write its value out)
+        cats = [c for c in cats if c != "update"]
     if cats and all(r == "T" for r in case["res"]):
         mm("pending", ["C10", "C05"], {"got": cats})
     if obs["files"]["test_case.py"] != text:
